@@ -202,6 +202,16 @@ def main(ctx):
                             cases.append(family.Case(src.encode(), 'C', {}, {'kind': 'comment-shape',
                                                                                'file': 'shape:cmt|%s|%d|%d|%d|%d|%d' % (kind2, col, gap, ind, len(st_), len(tail_))},
                                                      {'profile': p}))
+    # (a3) enumerated macro comment shapes: a multi-line comment inside a multi-line '#define', every width of the gap in front of the
+    # continuation backslash x blanks / tabs behind the backslash (what the first pass strips there the second pass must not see differently)
+    for gap in ('', ' ', '  ', '     ', '\t'):
+        for trail in ('', ' ', '   ', '\t'):
+            for body in ('   /* first line%s\\%s\n      second line%s\\%s\n      last */%s\\%s\n   do_it(x)\n',
+                         '   do_it(x); /* c1%s\\%s\n    * c2%s\\%s\n    */%s\\%s\n   more(x)\n'):
+                src = '#define M(x) \\\n' + body % (gap, trail, gap, trail, gap, trail) + 'int after;\n'
+                for p in use:
+                    cases.append(family.Case(src.encode(), 'C', {}, {'kind': 'macro-comment-shape', 'file': 'shape:mcmt|%r|%r|%d' % (gap, trail, len(body))},
+                                             {'profile': p}))
     # (c) weaker claim on random configs
     rc = family.random_cfgs(core.subseed(ctx.useed, 'c'), 3 if quick else 20, ('WS', 'MOD'), (0.02, 0.05, 0.1), _EX, ctx.counts)
     # "well-formed programs": the corpus files that compile stand-alone (many corpus inputs are fragments)
